@@ -92,10 +92,21 @@ class RF24:
         self._features = self._reg_read(TX_FEATURE)
         self._reg_write(0x50, 0x73)  # derelict command toggles TX_FEATURE register
         after_toggle = self._reg_read(TX_FEATURE)
-        if self._features == after_toggle:
+        if self._features != after_toggle:  # only a non-plus variant reacts
+            if not after_toggle:  # if features are disabled
+                self._reg_write(0x50, 0x73)  # ensure they're enabled
+        elif after_toggle:
             self._is_plus_variant = True
-        elif not after_toggle:  # if features are disabled
-            self._reg_write(0x50, 0x73)  # ensure they're enabled
+        else:
+            # read 0 twice: a non-plus variant whose TX_FEATURE register holds 0 (the
+            # reset value) looks the same with features enabled or disabled. Probe it
+            # with a write (of the value that __enter__() writes anyway).
+            self._reg_write(TX_FEATURE, 5)
+            if self._reg_read(TX_FEATURE):  # accepted: plus variant or enabled features
+                self._reg_write(0x50, 0x73)
+                self._is_plus_variant = bool(self._reg_read(TX_FEATURE))
+            if not self._is_plus_variant:  # features are disabled now
+                self._reg_write(0x50, 0x73)  # ensure they're enabled
         # pre-configure features for TX operations:
         #   5 = enable dynamic_payloads, disable custom ack payloads, &
         #       allow ask_no_ack command
